@@ -16,7 +16,7 @@ let sstr_of (s : string) : sstr =
 
 let token_of (s : string) : ptoken =
   match String.split_on_char ':' s with
-  | ["D"; v] -> TkDecl (sstr_of v)
+  | ["D"; v; e] -> TkDecl (sstr_of v, (if e = "~" then None else Some (sstr_of e)))
   | ["P"; t; c] -> TkPI (sstr_of t, (if c = "~" then None else Some (sstr_of c)))
   | ["C"; t] -> TkComment (sstr_of t)
   | ["X"; sp] -> TkDtd (span_of sp)
